@@ -137,44 +137,44 @@ def peak_ok(kv, maxlen):
 
 # ---------------------------------------------------------------- placement simulators
 
-def sim_aread(stream, maxlen, script):
-    """reference walk of an async frame reader over a script; yields per poll 'P' or 'R'
-    (used to know after which polls a `d` is a real drop)."""
-    pos, si = 0, 0
-    pre, need_payload, got = 0, None, 0
-    stuck = False
-    out = []
-    def one_poll():
-        nonlocal pos, si, pre, need_payload, got, stuck
+class SimARead:
+    """reference walk of an async frame reader over a script: `poll()` gives 'P' or 'R'; used to know
+    after which polls a `d` is a real drop and how many bytes the script has delivered (`pos`)."""
+    def __init__(self, stream, maxlen, script):
+        self.stream, self.maxlen, self.script = stream, maxlen, script
+        self.pos = self.si = self.pre = self.got = 0
+        self.need = None
+        self.stuck = False
+
+    def poll(self):
         while True:
-            if stuck:
+            if self.stuck:
                 return "R"
-            if need_payload is None and pre == 4:
-                ln = int.from_bytes(stream[pos - 4:pos], "big")
-                if ln > maxlen:
-                    stuck = True
+            if self.need is None and self.pre == 4:
+                ln = int.from_bytes(self.stream[self.pos - 4:self.pos], "big")
+                if ln > self.maxlen:
+                    self.stuck = True
                     return "R"
-                need_payload, got = ln, 0
-            if need_payload is not None and got >= need_payload:
-                need_payload, pre = None, 0
+                self.need, self.got = ln, 0
+            if self.need is not None and self.got >= self.need:
+                self.need, self.pre = None, 0
                 return "R"
-            if si >= len(script):
+            if self.si >= len(self.script):
                 return "P"
-            ev = script[si]; si += 1
+            ev = self.script[self.si]; self.si += 1
             if ev == "p":
                 return "P"
             if ev in ("e", "i", "z"):
                 return "R"
-            req = (4 - pre) if need_payload is None else need_payload - got
-            n = min(ev, req, len(stream) - pos)
+            req = (4 - self.pre) if self.need is None else self.need - self.got
+            n = min(ev, req, len(self.stream) - self.pos)
             if n == 0:
                 return "R"
-            pos += n
-            if need_payload is None:
-                pre += n
+            self.pos += n
+            if self.need is None:
+                self.pre += n
             else:
-                got += n
-    return one_poll
+                self.got += n
 
 
 def sim_awrite_poll(state, script_iter):
